@@ -43,6 +43,7 @@ CORPUS_KEYS = {
     "exit-condition-shortcircuit-skipped-first-use": "C01 corpus exit-condition-shortcircuit-skipped-first-use",
     "and-of-if-with-shortcircuit-branch": "C01 corpus and-of-if-with-shortcircuit-branch",
     "catch-in-callee-then-throw-to-caller": "C01 corpus catch-in-callee-then-throw-to-caller",
+    "union-case-in-if-in-toplevel-while": "C01 corpus union-case-in-if-in-toplevel-while",
 }
 
 _uniq = itertools.count()
